@@ -163,7 +163,19 @@ def judgeOne (known : List String) (k : Kind) (S : Schema) (o : Opts) (implSdl :
     -- attribute to the first listed finding whose removal changes the text
     match mine.find? (fun id => run (defectsOf (mine.filter (· ≠ id))) k S o ≠ modelK) with
     | some id => (2, id, String.ofList modelK, want)
-    | none => (3, "", "unexplained got=" ++ got, want)
+    | none =>
+      -- several listed defects act together (removing any single one leaves the text unchanged,
+      -- e.g. `\"` in a single-line description): attribute to the first listed one, provided the
+      -- fully repaired exporter's text does satisfy the property on this case
+      let fixedSdl := run Defects.none k S o
+      let fixedDoc := parseSchema fixedSdl
+      let fixedWant := render (cDoc (describe o S (allDirectives S) (composeGroups (allDirectives S))
+        (match fixedDoc with | some d => presentBuiltins d | none => [])))
+      match mine with
+      | id :: _ =>
+        if fixedSdl ≠ modelK && render (cResult fixedDoc) = fixedWant then (2, id, String.ofList modelK, want)
+        else (3, "", "unexplained got=" ++ got, want)
+      | [] => (3, "", "unexplained got=" ++ got, want)
   else (3, "", s!"prop={decide propOk} crate={decide crateOk} tie=false got={got} MODEL=" ++ String.ofList modelK, want)
 
 def judge (known : List String) (case impl : String) : JudgeOut :=
